@@ -3,6 +3,7 @@ CONSTANTS
   Budget = 4
   Enabled = {"Name", "Const", "UnaryOp", "BinOp", "BoolOp", "Compare", "IfExp", "Expression"}
   NameSet = {"a", "b"}
+  ExtraParens = FALSE
   Emit = TRUE
 SPECIFICATION Spec
 INVARIANTS EmitOK
